@@ -23,7 +23,7 @@ def C01_full : Prop :=
     any subset of unsynced operations, iterated), every commit that RETURNED in any incarnation is
     completely there — all its nodes, edges and properties — when the database is opened after the
     last crash. -/
-theorem acked_survive (rounds : List Round) (hok : HistOK cfgOfSource (created cfgOfSource) [] rounds) :
+theorem acked_survive (rounds : List Round) (hok : FreshHist [] rounds) :
     ∃ m fs', recover cfgOfSource (afterRounds cfgOfSource (created cfgOfSource) rounds) = .ok (m, fs') ∧
       ∀ r ∈ rounds, ∀ tx ∈ r.obs.acked,
         (∀ x ∈ tx.nodes, x ∈ (content m fs'.pv).nodes) ∧ (∀ e ∈ tx.edges, e ∈ (content m fs'.pv).edges) ∧
@@ -52,16 +52,20 @@ theorem commit_durable_after_sync {T : List Tx} {fs : FS} {m : Mem} {cs : List C
 /-! non-vacuity: the history of `C02.ex_rounds` acknowledges `ex_tx1` and `ex_tx3` -/
 example : (C02.ex_rounds.flatMap (fun r => r.obs.acked)) = [C02.ex_tx1, C02.ex_tx3] := by decide
 
-/-- current tree, known finding C01-torn-tail-append (C17's repair not in this tree:
-    `cfgOfSource.tailTolerant = false`): process death in the middle of a record of the first
-    commit leaves a torn log tail; the second incarnation commits `tx2` behind it and is
-    acknowledged; after the next open the nodes of `tx2` are there (node table) but its edge and its
-    property are gone (the log behind the torn frame is never read). -/
+/-- the tree before C17's repair (`tailTolerant := false`; fixed by 5f14685): process death in
+    the middle of a record of the first commit leaves a torn log tail; the second incarnation
+    commits `tx2` behind it and is acknowledged; after the next open the nodes of `tx2` are there
+    (node table) but its edge and its property are gone (the log behind the torn frame is never
+    read).  On the current tree the same history is covered by `acked_survive`. -/
 theorem counterexample_torn_tail_append :
-    cfgOfSource.tailTolerant = false ∧
-    (match recover cfgOfSource (afterRounds cfgOfSource (created cfgOfSource)
-        [⟨[], .inCommit C02.ex_tx1 4, .proc⟩, ⟨[C02.ex_tx2], .idle, .proc⟩]) with
+    (match recover { cfgOfSource with tailTolerant := false }
+        (afterRounds { cfgOfSource with tailTolerant := false } (created cfgOfSource)
+          [⟨[], .inCommit C02.ex_tx1 4, .proc⟩, ⟨[C02.ex_tx2], .idle, .proc⟩]) with
       | .ok (m, fs) => some (content m fs.pv)
-      | .error _ => none) = some ⟨[2001, 2002], [], []⟩ := by decide
+      | .error _ => none) = some ⟨[2001, 2002], [], []⟩ ∧
+    (match recover cfgOfSource (afterRounds cfgOfSource (created cfgOfSource)
+          [⟨[], .inCommit C02.ex_tx1 4, .proc⟩, ⟨[C02.ex_tx2], .idle, .proc⟩]) with
+      | .ok (m, fs) => some (content m fs.pv)
+      | .error _ => none) = some ⟨[2001, 2002], [2000], [20000]⟩ := by decide
 
 end Nervus.Props.C01
